@@ -62,7 +62,7 @@ func c11Gen(t *rapid.T) c11Case {
 		c.Ops = append(c.Ops, c11Op{K: "issue", I: rapid.IntRange(0, c.Issuers-1).Draw(t, "i"), M: rapid.SampledFrom([]string{"ldp", "ldp", "jwt"}).Draw(t, "fmt")})
 	}
 	kinds := []string{"issue", "issue", "issue", "entry", "jump", "revoke", "revoke", "revoke", "revoke", "serve", "serve",
-		"verifyA", "verifyA", "verifyB", "verifyB", "verifyB", "verifyB", "verifyB", "verifyB", "ageIssuer", "issueForged", "sc-forged-refresh", "sc-rollover", "fillpages", "race", "race", "race", "fault", "sc-fault-revoke", "sc-fault-revoke"}
+		"verifyA", "verifyA", "verifyB", "verifyB", "verifyB", "verifyB", "verifyB", "verifyB", "ageIssuer", "issueForged", "sc-forged-refresh", "sc-rollover", "fillpages", "race", "race", "race", "fault", "sc-fault-revoke", "sc-fault-revoke", "sc-external", "sc-external", "sc-external", "extRevoke"}
 	forged := []string{"http500", "neterr", "notjson", "unsigned", "zerobits", "zerobits", "allbits", "wrongsubject", "jsonmut"}
 	mut := func(t *rapid.T, op *c11Op) {
 		if op.M == "jsonmut" {
@@ -87,6 +87,15 @@ func c11Gen(t *rapid.T) c11Case {
 			sel := rapid.Uint32().Draw(t, "c")
 			return []c11Op{{K: "fault", N: 0, C: uint32(rapid.IntRange(1, 2).Draw(t, "count"))}, {K: "revoke", C: sel}, {K: "verifyA", C: sel},
 				{K: "verifyB", C: sel, M: "honest", A: "old"}, {K: "revoke", C: sel}, {K: "revoke", C: sel}, {K: "verifyA", C: sel}, {K: "verifyB", C: sel, M: "honest", A: "old"}}
+		case "sc-external":
+			// a credential of an EXTERNAL issuer whose status list (built and signed by the harness, any size the spec
+			// allows and some it does not) is served by the NET stub: look, revoke, refresh, look again
+			ext := c11Op{K: "extIssue", N: rapid.IntRange(0, len(c11ExtSizes)-1).Draw(t, "size"), C: uint32(rapid.IntRange(0, c11ExtIndexKinds-1).Draw(t, "index"))}
+			ops := []c11Op{ext}
+			if rapid.Bool().Draw(t, "lookFirst") {
+				ops = append(ops, c11Op{K: "verifyB", L: true, M: "honest"})
+			}
+			return append(ops, c11Op{K: "extRevoke", L: true}, c11Op{K: "verifyB", L: true, M: "honest", A: "old"})
 		case "sc-rollover":
 			// fill the issuer's page, issue across the page end, revoke the newest credential and look at it from afar
 			i := rapid.IntRange(0, c.Issuers-1).Draw(t, "i")
@@ -107,6 +116,8 @@ func c11Gen(t *rapid.T) c11Case {
 		case "fillpages":
 			op.I = rapid.IntRange(0, c.Issuers-1).Draw(t, "i")
 			op.N = rapid.SampledFrom([]int{1, 2, 3, 9, 10, 11}).Draw(t, "pages") // page numbers with two digits included
+		case "extRevoke":
+			op.C = rapid.Uint32().Draw(t, "c")
 		case "fault":
 			op.N = rapid.IntRange(0, 2).Draw(t, "skip")          // Sign calls of the node that still pass
 			op.C = uint32(rapid.IntRange(1, 3).Draw(t, "count")) // Sign calls that fail after that
@@ -155,6 +166,7 @@ type c11Cred struct {
 	url       string
 	idx       int
 	revocable bool // issued by the node itself with a status entry (the node can revoke it)
+	ext       bool // credential of the external issuer (status list built by the harness)
 }
 
 type c11List struct {
@@ -164,6 +176,34 @@ type c11List struct {
 	handed map[int]bool
 	floor  int          // indexes <= floor were skipped by the harness (jump) and may not be handed out either
 	bits   map[int]bool // revoked indexes (truth)
+	size   int          // external lists only: length of the bitstring in bytes
+}
+
+// external status lists: sizes in bytes (the node's own lists are exactly 16 kB; the spec says "at least 16KB")
+var c11ExtSizes = []int{16384, 16384, 16385, 20001, 32768, 131072, 1024, 1}
+
+// index kinds for credentials on an external list, relative to its size in bits
+const c11ExtIndexKinds = 8
+
+func c11ExtIndex(kind, sizeBits int) int {
+	switch kind {
+	case 0:
+		return 0
+	case 1:
+		return 131071
+	case 2:
+		return 131072
+	case 3:
+		return sizeBits - 1 // last bit
+	case 4:
+		return sizeBits // first index beyond the end
+	case 5:
+		return sizeBits + 9
+	case 6:
+		return sizeBits / 2
+	default:
+		return 131079
+	}
 }
 
 type c11Cache struct {
@@ -185,7 +225,8 @@ type c11Run struct {
 	c      c11Case
 	creds  []*c11Cred
 	lists  map[string]*c11List
-	urls   []string // creation order
+	urls   []string            // creation order
+	ext    map[string]*c11List // lists of the external issuer, by URL (not hosted on the issuer node)
 	cache  map[string]*c11Cache
 	modes  map[string]c11Op // NET mode per URL (default honest)
 	served map[string]*c11Served
@@ -204,9 +245,19 @@ func (r *c11Run) list(url string, issuerIdx int) (*c11List, bool) {
 	return l, true
 }
 
+func (r *c11Run) anyList(url string) *c11List {
+	if l := r.lists[url]; l != nil {
+		return l
+	}
+	return r.ext[url]
+}
+
 func (r *c11Run) truthBits(url string) []byte {
 	b := make([]byte, (revocation.C11MaxBitstringIndex+1)/8)
-	if l := r.lists[url]; l != nil {
+	if e := r.ext[url]; e != nil {
+		b = make([]byte, e.size)
+	}
+	if l := r.anyList(url); l != nil {
 		for i := range l.bits {
 			c11SetBit(b, i)
 		}
@@ -266,6 +317,15 @@ func (r *c11Run) statusEntry(cred *vc.VerifiableCredential) (revocation.StatusLi
 // NET handler
 
 func (r *c11Run) genuine(url string) (int, []byte) {
+	if e := r.ext[url]; e != nil {
+		now := time.Now()
+		cred, err := r.f.signList(c11NIssuers, url, revocation.StatusPurposeRevocation, r.truthBits(url), now.Add(-time.Minute), now.Add(24*time.Hour))
+		if err != nil {
+			r.x.Fatalf("sign external list: %v", err)
+		}
+		b, _ := json.Marshal(cred)
+		return 200, b
+	}
 	didStr, page, ok := c11ParseListURL(url)
 	if !ok {
 		return 404, []byte(`{"title":"not found"}`)
@@ -303,10 +363,14 @@ func (r *c11Run) handle(url string) (int, []byte, error) {
 	if !gview.OK {
 		r.x.Fatalf("genuine list of %s unreadable by the oracle's parser: %s", url, gen)
 	}
-	l := r.lists[url]
+	l := r.anyList(url)
 	switch mode {
 	case "honest":
 		sv.body, sv.view = gen, gview
+		if len(gview.Bits) < (revocation.C11MaxBitstringIndex+1)/8 {
+			// shorter than the spec's minimum of 16 kB: a verifier may refuse it (judged as may-accept)
+			sv.mode = "honest-short"
+		}
 		return 200, gen, nil
 	case "http500":
 		sv.mustReject = true
@@ -812,6 +876,11 @@ func (r *c11Run) opVerifyA(op c11Op) bool {
 	if c == nil {
 		return false
 	}
+	if c.ext {
+		// the issuer node has no route to the external issuer's list in this fixture
+		r.x.Class("verifyA:skipped-external")
+		return false
+	}
 	err := r.f.verA.Verify(c.vc, true, true, nil)
 	want := false
 	if c.hasStatus {
@@ -1066,6 +1135,60 @@ func (r *c11Run) opAgeIssuer(op c11Op) {
 	r.x.Class("ageIssuer:" + op.M)
 }
 
+// opExtIssue: the external issuer publishes (or already has) a status list of the chosen size and issues a credential
+// whose status entry is at / around a boundary of that list.
+func (r *c11Run) opExtIssue(op c11Op) {
+	size := c11ExtSizes[op.N%len(c11ExtSizes)]
+	url := c11ExtBase + strconv.Itoa(size)
+	l := r.ext[url]
+	if l == nil {
+		l = &c11List{url: url, issuer: c11NIssuers, page: 1, handed: map[int]bool{}, floor: -1, bits: map[int]bool{}, size: size}
+		r.ext[url] = l
+	}
+	idx := c11ExtIndex(int(op.C)%c11ExtIndexKinds, size*8)
+	if idx < 0 {
+		idx = 0
+	}
+	e := revocation.StatusList2021Entry{ID: fmt.Sprintf("%s#%d", url, idx), Type: revocation.StatusList2021EntryType,
+		StatusPurpose: revocation.StatusPurposeRevocation, StatusListIndex: strconv.Itoa(idx), StatusListCredential: url}
+	r.serial++
+	cred, err := r.f.signVC(c11NIssuers, e, r.serial)
+	r.x.NoErr(err, "sign external credential")
+	l.handed[idx] = true
+	r.creds = append(r.creds, &c11Cred{vc: *cred, issuer: c11NIssuers, hasStatus: true, url: url, idx: idx, ext: true})
+	where := "inside"
+	switch {
+	case idx >= size*8:
+		where = "beyond-end"
+	case idx >= 131072:
+		where = "inside-above-131071"
+	}
+	r.x.Classf("ext:issue:size=%d:%s", size, where)
+}
+
+// opExtRevoke: the external issuer sets the bit of one of its credentials (possible only for an index its list has).
+func (r *c11Run) opExtRevoke(op c11Op) bool {
+	var c *c11Cred
+	if op.L {
+		if len(r.creds) > 0 && r.creds[len(r.creds)-1].ext {
+			c = r.creds[len(r.creds)-1]
+		}
+	} else {
+		c = r.pickCred(op.C, func(c *c11Cred) bool { return c.ext })
+	}
+	if c == nil {
+		return false
+	}
+	l := r.ext[c.url]
+	if c.idx >= l.size*8 {
+		r.x.Class("ext:revoke:index-beyond-list")
+		return false
+	}
+	l.bits[c.idx] = true
+	r.x.Class("ext:revoke")
+	return true
+}
+
 // opIssueForged: issuer k signs a credential whose status entry is one the harness chose: the slot of another issuer's
 // credential (0), of an own credential (1), or a slot on a page that does not exist (2).
 func (r *c11Run) opIssueForged(op c11Op) {
@@ -1102,7 +1225,7 @@ func c11RunCase(t *testing.T) func(x *h.Ctx, c c11Case) {
 		}
 		f := c11Fixture(t)
 		x.NoErr(f.reset(), "reset")
-		r := &c11Run{x: x, f: f, c: c, lists: map[string]*c11List{}, cache: map[string]*c11Cache{}, modes: map[string]c11Op{}, served: map[string]*c11Served{}}
+		r := &c11Run{x: x, f: f, c: c, lists: map[string]*c11List{}, ext: map[string]*c11List{}, cache: map[string]*c11Cache{}, modes: map[string]c11Op{}, served: map[string]*c11Served{}}
 		f.net.mu.Lock()
 		f.net.handler = r.handle
 		f.net.mu.Unlock()
@@ -1118,6 +1241,12 @@ func c11RunCase(t *testing.T) func(x *h.Ctx, c c11Case) {
 				r.opJump(op)
 			case "fillpages":
 				r.opFillPages(op)
+			case "extIssue":
+				r.opExtIssue(op)
+			case "extRevoke":
+				if r.opExtRevoke(op) {
+					revoked = true
+				}
 			case "fault":
 				f.setFault(op.N, int(op.C%4))
 				x.Classf("fault:armed:skip=%d:count=%d", op.N, op.C%4)
